@@ -748,10 +748,9 @@ func (e *Engine) step(fr *Frame, st *State, ins ssa.Instruction) []*State {
 	case *ssa.Go:
 		return e.goStmt(fr, st, x)
 	case *ssa.Send:
-		// ghost: record on channel history; blocking ignored
-		e.note("channel send treated as non-blocking ghost append")
+		e.sendOp(fr, st, ins, x.Chan, e.val(fr, st, x.X), x.X.Type())
 	case *ssa.Select:
-		unsupp("select")
+		return e.selectOp(fr, st, x)
 	case *ssa.MakeChan:
 		fr.regs[x] = scalar(st.newRef())
 	case *ssa.SliceToArrayPointer:
@@ -1368,4 +1367,83 @@ func (e *Engine) goStmt(fr *Frame, st *State, x *ssa.Go) []*State {
 	e.note("go statement executed sequentially at the spawn point (sound only if it commutes with the rest)")
 	_, sts := e.call(fr, st, x, &x.Call, nil)
 	return sts
+}
+
+// chanKey names a channel that is a struct field: "chan:pkg.Type.field".
+func chanKey(ch ssa.Value) string {
+	if u, ok := ch.(*ssa.UnOp); ok && u.Op == token.MUL {
+		if fa, ok := u.X.(*ssa.FieldAddr); ok {
+			st := fa.X.Type().Underlying().(*types.Pointer).Elem()
+			if n, ok := st.(*types.Named); ok && n.Obj().Pkg() != nil {
+				f := st.Underlying().(*types.Struct).Field(fa.Field)
+				return "chan:" + shortPkg(n.Obj().Pkg().Path()) + "." + n.Obj().Name() + "." + f.Name()
+			}
+		}
+	}
+	return ""
+}
+
+// sendOp: a send is non-blocking in the model; its ghost effect is the channel's contract (if any).
+func (e *Engine) sendOp(fr *Frame, st *State, ins ssa.Instruction, ch ssa.Value, v Val, vt types.Type) {
+	key := chanKey(ch)
+	c := e.db.Contracts[key]
+	if c == nil {
+		e.note("send on a channel without contract (" + key + "): no ghost effect, blocking ignored")
+		return
+	}
+	e.usedSpecs[key] = true
+	name := "sent"
+	if len(c.Params) > 0 {
+		name = c.Params[0]
+	}
+	vars := map[string]SVal{name: {V: e.materialize(v, vt), T: vt}}
+	e.applyContract(fr, st, ins, c, key, vars, types.NewTuple(), nil)
+}
+
+// selectOp: nondeterministic choice among the ready cases (one continuation per case).
+func (e *Engine) selectOp(fr *Frame, st *State, x *ssa.Select) []*State {
+	n := len(x.States)
+	total := n
+	if !x.Blocking {
+		total = n + 1 // default case: index -1
+	}
+	// result tuple: (index int, recvOk bool, recv_0 ... recv_k)
+	var recvTypes []types.Type
+	for _, s := range x.States {
+		if s.Dir == types.RecvOnly {
+			recvTypes = append(recvTypes, s.Chan.Type().Underlying().(*types.Chan).Elem())
+		}
+	}
+	idx := Fresh("select_idx", SInt)
+	okv := Fresh("select_ok", SBool)
+	res := Val{Fs: []Val{{T: idx}, {T: okv}}}
+	for _, rt := range recvTypes {
+		res.Fs = append(res.Fs, st.freshVal("select_recv", rt))
+	}
+	fr.regs[x] = res
+	var out []*State
+	for i := 0; i < total; i++ {
+		s2 := st
+		if i < total-1 {
+			s2 = st.clone()
+		}
+		ci := i
+		if !x.Blocking && i == n {
+			ci = -1
+		}
+		s2.assume(Eq(idx, IntLit(int64(ci))))
+		if ci >= 0 && x.States[ci].Dir == types.SendOnly {
+			sc := x.States[ci]
+			e.sendOp(fr, s2, x, sc.Chan, e.val(fr, s2, sc.Send), sc.Send.Type())
+		}
+		out = append(out, s2)
+	}
+	e.paths += total - 1
+	// the original state object must come first
+	for i, s := range out {
+		if s == st {
+			out[0], out[i] = out[i], out[0]
+		}
+	}
+	return out
 }
